@@ -600,6 +600,7 @@ class SymtableCodeGen(AbstractCodeGen):
         self._parentOids.clear()
         self._symsOrder = []
         self._postponedSyms.clear()
+        self._moduleRevision = None
         self._importMap.clear()
         self._out = {}  # should be new object, do not use `clear` method
         self.moduleName[0], moduleOid, imports, declarations = ast
